@@ -338,7 +338,7 @@ def run_check(harness_mod, tier, seed, jobs=None, wall_budget=None):
         print('INCONCLUSIVE: MIR dump not parseable: %s' % ex, file=sys.stderr); return 2
     jobs = jobs or int(os.environ.get('VERIF_JOBS', '16'))
     cases = h.cases(tier)
-    budget = wall_budget or float(os.environ.get('VERIF_WALL', {'quick': 200, 'thorough': 1500}[tier]))
+    budget = wall_budget or float(os.environ.get('VERIF_WALL', {'quick': 200, 'thorough': 1200}[tier]))
     deadline = t0 + budget
     use_fork = not os.environ.get('VERIF_NOFORK')
     ctx = mp.get_context('fork')
